@@ -3,6 +3,7 @@ module verifharness
 go 1.19
 
 require (
+	cosmossdk.io/errors v1.0.0
 	cosmossdk.io/math v1.2.0
 	github.com/KiraCore/sekai v0.0.0
 	github.com/cometbft/cometbft v0.37.2
@@ -15,7 +16,6 @@ require (
 	cosmossdk.io/api v0.3.1 // indirect
 	cosmossdk.io/core v0.5.1 // indirect
 	cosmossdk.io/depinject v1.0.0-alpha.4 // indirect
-	cosmossdk.io/errors v1.0.0 // indirect
 	cosmossdk.io/log v1.2.1 // indirect
 	cosmossdk.io/tools/rosetta v0.2.1 // indirect
 	filippo.io/edwards25519 v1.0.0 // indirect
